@@ -400,6 +400,13 @@ def _minmax(name):
                 return V("float" if x.kind != "tuple" else "int", T("reduce_" + name, x.term), shape=(), labels=x.labels)
         if all(a.has_const and isinstance(a.const, (int, float)) for a in args):
             return vconst((min if name == "min" else max)(a.const for a in args))
+        drop = float("inf") if name == "min" else float("-inf")
+        kept = [a for a in args if not (a.has_const and isinstance(a.const, float) and a.const == drop)]
+        if kept and len(kept) < len(args):
+            # min(inf, c) is c
+            args = kept
+            if len(args) == 1:
+                return args[0]
         ds = [dim_of(a) for a in args]
         if all(d is not None for d in ds):
             acc = ds[0]
